@@ -640,6 +640,15 @@ def generate(seed, tier):
             L += [cr(ty, 'fh!nosvc!fx', va, exp='commit')]
         L += [cr(ty, nm, va, must=True), dl('Host', 'fh', 1), dl('Host', 'fp', 1)]
         cases.append(case(L, 'fail-' + ty))
+    # M. names with more parts than the composer of the type uses (known finding composite-name-extra-parts until the
+    #    proposed fix is in; Service: must be refused cleanly)
+    for ty in COMPOSITE3:
+        for nm in ('eh!es!en!x', 'eh!!en', 'eh!es!en!'):
+            cases.append(case([G0, cr('Host', 'eh', valid_attrs('Host'), must=True), cr('Service', 'eh!es', valid_attrs('Service'), must=True),
+                               cr('Host', 'ep', valid_attrs('Host'), must=True),
+                               cr(ty, nm, valid_attrs(ty, 'ep')), dl(ty, nm, 0), dl('Host', 'eh', 1), dl('Host', 'ep', 1)], 'extra-parts-' + ty))
+    cases.append(case([G0, cr('Host', 'eh', valid_attrs('Host'), must=True), cr('Service', 'eh!es!x', valid_attrs('Service')),
+                       cr('Service', 'eh!!x', valid_attrs('Service')), dl('Host', 'eh', 1)], 'extra-parts-Service'))
     # G. aimed at F-C17-a: multi-line dictionary keys through the real CreateObject
     for payload in ('x = 1\nCwProbe = "pwn"\nz', 'x\nz', 'a\rb', 'a\x0cb', 'q = {\n}\nz', 'x = 1\r\nz', 'if\nz', 'x\n\n', '\nx'):
         for where in ('nested', 'dotted'):
@@ -728,6 +737,11 @@ def classify(case, detail, impl_lines):
         except ValueError: nm = b''
         if nm.count(b'!') >= 2:
             return 'name-extra-parts'
+    if code in (11, 12) and op == 'cw_create' and toks.get('type') in COMPOSITE3:
+        try: nm = bytes.fromhex(toks.get('name', ''))
+        except ValueError: nm = b''
+        if nm.count(b'!') >= 3 or b'' in nm.split(b'!'):
+            return 'composite-name-extra-parts'
     return label
 
 
